@@ -68,14 +68,20 @@ RULE = ('client: config programs of 1-4 files (main + included, included via '
 ASSUMPTIONS = [
     'ssh (OpenSSH 9.2) -G is the arbiter for client configs; an option '
     'asyncssh leaves unset is compared with the built-in default printed by '
-    'ssh -G -F /dev/null',
+    'ssh -G -F /dev/null; a file ssh itself refuses is not judged',
     'names are lower case (Host is case-sensitive in ssh, Match host is not)',
     'no commas in Host patterns, no trailing comments, no `none` values, no '
-    '+/-/^ algorithm list prefixes, never both ProxyJump and ProxyCommand',
-    'Match final programs contain no Hostname/User directive and no negated '
-    'final (ssh keeps first-pass values across the re-parse, asyncssh '
-    're-parses from scratch: only the documented "matches only during the '
-    'final pass" part is exercised)',
+    '+/-/^ algorithm list prefixes, never both ProxyJump and ProxyCommand, '
+    'ProxyJump never quoted, distinct names within one SetEnv/SendEnv line',
+    'undocumented ssh behaviours are avoided rather than judged: RekeyLimit '
+    'always has both arguments and a numeric time (ssh keeps separate '
+    'first-obtained values, `none` counts as not obtained), Hostname has no '
+    '%% (ssh expands the stored name repeatedly), IdentityAgent has no '
+    'tokens (ssh -G prints it expanded), CanonicalizePermittedCNAMEs and '
+    'CanonicalizeHostname yes need DNS, BatchMode changes other defaults',
+    'Match final programs contain no Hostname/User/SendEnv/Canonicalize* '
+    'directive and no negated final (ssh appends SendEnv twice and fills '
+    'the Canonicalize* defaults before its final pass)',
     'Match canonical left out: ssh treats it as true in any final pass, '
     'asyncssh only after a real canonicalisation (needs DNS)',
     'relative / ~ Include and token *results* are judged by the reference '
@@ -83,6 +89,8 @@ ASSUMPTIONS = [
     'server half has no sshd: the documented first-match model and the '
     'path-containment rule are the oracle']
 OUT_OF_REACH = ['Match exec / localnetwork / tagged on the asyncssh side',
+                'an empty user name substituted into a template that starts '
+                'with %u (gives an absolute path; not in the name grammar)',
                 'Match canonical and real host canonicalisation (no DNS)',
                 'sshd -T as arbiter for server configs (no sshd binary)',
                 'how the resolved options are consumed by connect()']
@@ -124,8 +132,7 @@ OPTS = {
     'PasswordAuthentication': 'bool', 'KbdInteractiveAuthentication': 'bool',
     'HostbasedAuthentication': 'bool', 'CanonicalizeHostname': 'bool',
     'CanonicalizeMaxDots': 'int', 'CanonicalDomains': 'list',
-    'CanonicalizeFallbackLocal': 'bool',
-    'CanonicalizePermittedCNAMEs': 'list', 'HostKeyAlias': 'str',
+    'CanonicalizeFallbackLocal': 'bool', 'HostKeyAlias': 'str',
     'GSSAPIAuthentication': 'bool', 'GSSAPIDelegateCredentials': 'bool',
     'EnableSSHKeySign': 'bool', 'IdentityAgent': 'str',
     'PKCS11Provider': 'str',
@@ -134,7 +141,7 @@ TOKEN_OPTS = {'IdentityFile', 'CertificateFile', 'IdentityAgent',
               'ProxyCommand', 'RemoteCommand'}
 NOISE = ['LogLevel DEBUG', 'StrictHostKeyChecking yes', 'ControlMaster no',
          'VisualHostKey yes', 'HashKnownHosts yes', 'ForwardX11 no',
-         'CheckHostIP no', 'BatchMode yes', 'NumberOfPasswordPrompts 2']
+         'CheckHostIP no', 'NumberOfPasswordPrompts 2']
 
 ALGS = {
     'Ciphers': ['aes128-ctr', 'aes256-ctr', 'aes128-gcm@openssh.com',
@@ -250,7 +257,10 @@ class Gen:
         self.pool = sorted(set(pool))
 
     def _allowed(self, name):
-        if self.kind == 'final' and name in ('Hostname', 'User'):
+        if self.kind == 'final' and (name in ('Hostname', 'User', 'SendEnv')
+                                     or name.startswith('Canonical')):
+            # (ssh appends SendEnv a second time in its final pass and has
+            # the Canonicalize* defaults filled in before it)
             return False
         if self.kind != 'tokens' and name in ('ProxyCommand', 'RemoteCommand',
                                               'IdentityAgent'):
@@ -267,10 +277,10 @@ class Gen:
         self.uniq += 1
         u = self.uniq
         tok = self.kind == 'tokens'
-        if kind == 'bool':
-            return [rng.choice(['yes', 'no'])]
         if name == 'CanonicalizeHostname':
             return ['no']
+        if kind == 'bool':
+            return [rng.choice(['yes', 'no'])]
         if kind == 'int':
             if name in ('Port',):
                 return [str(rng.choice([2200 + u, 2222, 8022, 10022]))]
@@ -280,12 +290,17 @@ class Gen:
         if kind == 'tty':
             return [rng.choice(['yes', 'no', 'force', 'auto'])]
         if kind == 'rekey':
-            return rng.choice([['1G'], ['500M', '1h'], ['default', 'none'],
-                               ['64K', '30'], ['default', '10m'], ['2G', '1d'],
-                               ['128M', 'none'], ['4096K']])
+            # always both arguments: ssh keeps "first obtained" separately
+            # for the byte and the time limit (undocumented)
+            # (and treats a time of `none` as "not obtained yet")
+            return rng.choice([['1G', '2h'], ['500M', '1h'],
+                               ['default', '45'], ['64K', '30'],
+                               ['default', '10m'], ['2G', '1d'],
+                               ['128M', '1w'], ['4096K', '90']])
         if kind == 'hostname':
+            # (no %% here: ssh expands a stored Hostname more than once)
             return [rng.choice(['%h.example.com', 'gw-%h', 'real.example.net',
-                                rng.choice(HOSTS), '%h', 'h%%h.%h'])]
+                                rng.choice(HOSTS), '%h', 'h-%h.%h'])]
         if name == 'User':
             return [rng.choice(USERS + ['quoted user'])]
         if name in ALGS:
@@ -311,7 +326,8 @@ class Gen:
             return [base + f' #{u}']
         if name in ('IdentityFile', 'CertificateFile', 'IdentityAgent'):
             base = f'/keys/{name[:4].lower()}{u}'
-            if tok:
+            # (ssh -G prints IdentityAgent expanded, and oddly: no tokens)
+            if tok and name != 'IdentityAgent':
                 base += rng.choice(['', '_%h', '_%r@%n', '/%%/%u', '-%p-%L',
                                     '_%C', '/%i/%l', '/%%h/%h'])
                 if rng.random() < 0.25:
@@ -324,21 +340,18 @@ class Gen:
                 base = f'/keys/with space/{u}'
             return [base]
         if name == 'SendEnv':
-            return [f'{rng.choice(["LANG", "LC_*", "FOO", "BAR_?"])}{u}'
-                    for _ in range(rng.randint(1, 3))]
+            return [f'{rng.choice(["LANG", "LC_*", "FOO", "BAR_?"])}{u}x{i}'
+                    for i in range(rng.randint(1, 3))]
         if name == 'SetEnv':
-            return [f'{rng.choice(["A", "B", "LONGER_NAME"])}{u}=' +
+            return [f'{rng.choice(["A", "B", "LONGER_NAME"])}{u}x{i}=' +
                     rng.choice(['1', 'x=y', 'two words', ''])
-                    for _ in range(rng.randint(1, 2))]
+                    for i in range(rng.randint(1, 2))]
         if name in ('UserKnownHostsFile', 'GlobalKnownHostsFile'):
             return [f'/kh/{name[0].lower()}{u}_{i}'
                     for i in range(rng.randint(1, 3))]
         if name == 'CanonicalDomains':
             return rng.sample(['a.example', 'b.example', 'c.test'],
                               rng.randint(1, 2))
-        if name == 'CanonicalizePermittedCNAMEs':
-            return [rng.choice(['*.a.example:*.b.example',
-                                'www.example.com:*.example.net'])]
         if name == 'BindAddress':
             return [rng.choice(['10.0.0.1', '192.168.1.5', '::1', 'localhost'])]
         if name == 'HostKeyAlias':
@@ -563,7 +576,7 @@ def render_opt(rng, name, args, server=False):
                 words.append(f'{n}="{v}"')
             else:
                 words.append(f'"{a}"')
-        elif rng.random() < 0.12 and '"' not in a:
+        elif rng.random() < 0.12 and '"' not in a and name != 'ProxyJump':
             words.append(f'"{a}"')
         else:
             words.append(a)
@@ -575,11 +588,16 @@ def render_opt(rng, name, args, server=False):
 class Ref:
     """First-obtained-value resolver over the generated structure"""
 
-    def __init__(self, gen, target, final=False, glob_order=None):
+    def __init__(self, gen, target, final=False, glob_order=None,
+                 fresh_final=False, premature=False):
         self.g = gen
         self.t = target
         self.final = final
+        # the next three only build *classifier* models of known divergences
+        self.fresh_final = fresh_final
         self.glob_order = glob_order
+        self.premature = premature
+        self.expand_error = False
         self.opts = {}
         self.raw = {}
         self.hits = {'host': 0, 'match': 0, 'include': 0, 'blocks': 0}
@@ -644,15 +662,36 @@ class Ref:
                     for p in paths:
                         self.hits['include'] += 1
                         self.run(p, True)
+                        if self.premature:
+                            self.expand_now()
             elif active:
                 self.set(it[1], it[2])
+
+    def expand_now(self):
+        """(classifier model) expand tokens with the values obtained so far"""
+
+        try:
+            if self.g.server:
+                if 'AuthorizedKeysFile' in self.opts:
+                    self.opts['AuthorizedKeysFile'] = [
+                        subst_user(x, self.t['user'])
+                        for x in self.opts['AuthorizedKeysFile']]
+                return
+            tab = token_table(self.t['host'], *_final_identity(self, self.t),
+                              os.path.expanduser('~'))
+            for name in TOKEN_OPTS:
+                if name in self.opts:
+                    self.opts[name] = [expand(v, tab)
+                                       for v in self.opts[name]]
+        except KeyError:
+            self.expand_error = True
 
     def resolve(self, main):
         """ssh: one pass; if some block said `final`, a second pass with
            final true on top of the values already obtained"""
 
         self.run(main)
-        if self.has_final:
+        if self.has_final and not self.fresh_final:
             self.final = True
             self.run(main)
         return self
@@ -848,7 +887,8 @@ def gen_targets(rng, gen, n):
         p = ''.join(rng.choice(['', 'x', 'web', '.example', '1'])
                     if c == '*' else rng.choice('a1x') if c == '?' else c
                     for c in p)
-        if re.fullmatch(r'[a-z0-9][a-z0-9.-]*', p or ''):
+        if re.fullmatch(r'[a-z0-9][a-z0-9.-]*', p or '') and \
+                (re.search('[a-z]', p) or p in HOSTS + NEAR):
             pool.append(p)
     out = []
     for _ in range(n):
@@ -864,29 +904,101 @@ def gen_targets(rng, gen, n):
     return out
 
 
-def classify(gen, kind, name, a, want, path, target, features):
-    """Stable mechanism key for a client-side disagreement on option name"""
+def _glob_order(pattern, paths):
+    """The order asyncssh's Include (pathlib glob) yields for a pattern"""
 
-    if OPTS[name] == 'raw' and isinstance(a, str) and a.startswith('='):
+    p = Path(pattern)
+    got = [str(x) for x in Path(p.anchor).glob(str(Path(*p.parts[1:])))
+           if x.is_file()]
+    return got if sorted(got) == sorted(paths) else paths
+
+
+_EQ_TAIL = re.compile(r'^\s*(\w+)=\S*=("")?"?(\s|$)')
+
+
+def classify(gen, kind, name, a, path, target, features, fallback=None):
+    """Stable mechanism key for a disagreement on option `name` whose
+       asyncssh value is `a` (None = unset): which documented rule, when
+       broken in the reference model, reproduces asyncssh's answer"""
+
+    server = gen.server
+    table = SOPTS if server else OPTS
+
+    def val(ref):
+        if name not in ref.opts:
+            return None
+        if server:
+            args = ref.opts[name]
+            if name == 'AuthorizedKeysFile':
+                args = [subst_user(x, target['user']) for x in args]
+            return norm_args(name, args, True)
+        return _cmp_ref(gen, name, ref, target)
+
+    def model(**kw):
+        if features['final']:
+            kw.update(final=True, fresh_final=True)
+        ref = Ref(gen, target, **kw).resolve(path)
+        try:
+            return 'rejected' if ref.expand_error else val(ref)
+        except KeyError:
+            return 'rejected'
+
+    if table[name] == 'raw' and isinstance(a, str) and a.startswith('='):
         return 'raw_option_keeps_equals_separator'
-    if features['multi_glob']:
-        def order(pattern, paths):
-            p = Path(pattern)
-            got = [str(x) for x in Path(p.anchor).glob(
-                str(Path(*p.parts[1:]))) if x.is_file()]
-            return got if sorted(got) == sorted(paths) else paths
-        alt = Ref(gen, target, glob_order=order).resolve(path)
-        if name in alt.opts and _cmp_ref(gen, name, alt, target) == a:
-            return 'include_glob_not_in_sorted_order'
-    if name in TOKEN_OPTS and features['includes']:
+    for text in features['texts'].values():
+        for line in text.splitlines():
+            m = _EQ_TAIL.match(line)
+            if m and m.group(1).lower() == name.lower():
+                return 'value_ending_in_equals_misparsed'
+    if features['multi_glob'] and \
+            val(Ref(gen, target, glob_order=_glob_order).resolve(path)) == a:
+        return 'include_glob_not_in_sorted_order'
+    if features['final'] and model() == a:
+        return 'match_final_reparse_discards_first_pass'
+    if features['includes'] and model(premature=True) == a:
         return 'token_expansion_differs_with_include'
+    if features['includes'] and \
+            model(premature=True, glob_order=_glob_order) == a:
+        return 'include_order_and_token_divergences_combined' \
+            if name in TOKEN_OPTS or name == 'AuthorizedKeysFile' else \
+            'include_glob_not_in_sorted_order'
     if name in TOKEN_OPTS:
         return 'token_expansion_differs'
+    if fallback:
+        return fallback
     if kind == 'final':
         return 'resolution_differs_with_match_final'
     if features['includes']:
         return 'resolution_differs_with_include'
     return 'resolution_differs_from_ssh'
+
+
+def classify_rejection(gen, kind, exc, path, target, features, fallback):
+    """asyncssh refused a file ssh accepts: is it the known early/double
+       token expansion at the end of an included file?"""
+
+    if 'Invalid token expansion' not in str(exc) or \
+            not features['includes']:
+        return fallback
+    for order in (None, _glob_order):
+        kw = dict(premature=True, glob_order=order)
+        if features['final']:
+            kw.update(final=True, fresh_final=True)
+        ref = Ref(gen, target, **kw).resolve(path)
+        if ref.expand_error:
+            return 'token_expansion_differs_with_include'
+        names = ['AuthorizedKeysFile'] if gen.server else TOKEN_OPTS
+        for name in names:
+            if name in ref.opts:
+                try:
+                    if gen.server:
+                        [subst_user(x, target['user'])
+                         for x in ref.opts[name]]
+                    else:
+                        _cmp_ref(gen, name, ref, target)
+                except KeyError:
+                    return 'token_expansion_differs_with_include'
+    return fallback
 
 
 def _final_identity(ref, target):
@@ -935,7 +1047,7 @@ def run_client(case, mon, viol, info, texts):
                 'multi_glob': any(it[0] == 'include' and len(it[2]) > 1
                                   for its in gen.files.values()
                                   for it in its),
-                'final': False}
+                'final': False, 'texts': ftexts}
             for target in gen_targets(rng, gen, case['targets']):
                 check_client(gen, kind, main, target, feats, defaults, mon,
                              viol, info, ftexts)
@@ -953,6 +1065,7 @@ def check_client(gen, kind, main, target, feats, defaults, mon, viol, info,
                  ftexts):
     ref = Ref(gen, target).resolve(main)
     final = ref.has_final
+    feats = dict(feats, final=final)
 
     def show():
         return ' ||| '.join(f'{os.path.relpath(p, gen.root)}: {t!r}'
@@ -960,22 +1073,23 @@ def check_client(gen, kind, main, target, feats, defaults, mon, viol, info,
 
     tdesc = f"host={target['host']!r} -l {target['user']!r} " \
             f"-p {target['port']!r}"
-    try:
-        cfg = load_async(main, target)
-    except Exception as exc:
-        viol.append({'mechanism': 'documented_config_rejected',
-                     'detail': f'{type(exc).__name__}: {exc}; target {tdesc};'
-                               f' files: {show()}'})
-        return
     sres = None
     if not gen.relative:
         sres, err = run_ssh_g(main, target)
         if sres is None:
+            # ssh itself refuses the file (or failed): nothing to judge
             mon['tool_skipped'] += 1
             info.setdefault('ssh_errors', []).append(err)
-        else:
-            mon['ssh_g_comparisons'] += 1
-    if sres is None and not gen.relative:
+            return
+        mon['ssh_g_comparisons'] += 1
+    try:
+        cfg = load_async(main, target)
+    except Exception as exc:
+        mech = classify_rejection(gen, kind, exc, main, target, feats,
+                                  'documented_config_rejected')
+        viol.append({'mechanism': mech,
+                     'detail': f'{type(exc).__name__}: {exc} (ssh accepts '
+                               f'the file); target {tdesc}; files: {show()}'})
         return
     mon['host_blocks_hit'] += ref.hits['host']
     mon['match_blocks_hit'] += ref.hits['match']
@@ -1039,7 +1153,7 @@ def check_client(gen, kind, main, target, feats, defaults, mon, viol, info,
                         f'ssh={want!r} {tdesc} {show()}'[:1500])
                 if a != want:
                     viol.append({
-                        'mechanism': classify(gen, kind, name, a, want, main,
+                        'mechanism': classify(gen, kind, name, a, main,
                                               target, feats),
                         'detail': f'{name}: asyncssh resolves {a!r}, ssh -G '
                                   f'gives {svals!r} (expected {want!r} after '
@@ -1048,8 +1162,8 @@ def check_client(gen, kind, main, target, feats, defaults, mon, viol, info,
             else:
                 mon['unset_compared'] += 1
                 if svals != dvals:
-                    mech = classify(gen, kind, name, None, svals, main,
-                                    target, feats)
+                    mech = classify(gen, kind, name, None, main, target,
+                                    feats)
                     viol.append({
                         'mechanism': mech,
                         'detail': f'{name}: asyncssh leaves it unset, ssh -G '
@@ -1064,7 +1178,9 @@ def check_client(gen, kind, main, target, feats, defaults, mon, viol, info,
             mon['options_compared'] += 1
             if a != want:
                 viol.append({
-                    'mechanism': 'relative_include_resolution_differs',
+                    'mechanism': classify(
+                        gen, kind, name, a, main, target, feats,
+                        fallback='relative_include_resolution_differs'),
                     'detail': f'{name}: asyncssh resolves {a!r}, documented '
                               f'rules (Include relative to ~/.ssh, HOME='
                               f'{os.environ["HOME"]}) give {want!r} for '
@@ -1158,11 +1274,19 @@ def run_server(case, mon, viol, info, texts):
                 ref = Ref(gen, t).resolve(main)
                 show = ' ||| '.join(f'{os.path.relpath(p, sub)}: {x!r}'
                                     for p, x in sorted(ftexts.items()))
+                feats = {'texts': ftexts, 'final': False,
+                         'includes': len(gen.files) > 1,
+                         'multi_glob': any(
+                             it[0] == 'include' and len(it[2]) > 1
+                             for its in gen.files.values() for it in its)}
                 try:
                     cfg = load_server(main, t)
                 except Exception as exc:
+                    mech = classify_rejection(
+                        gen, 'server', exc, main, t, feats,
+                        'documented_server_config_rejected')
                     viol.append({
-                        'mechanism': 'documented_server_config_rejected',
+                        'mechanism': mech,
                         'detail': f'{type(exc).__name__}: {exc}; {t}; {show}'})
                     continue
                 mon['server_match_blocks_hit'] += ref.hits['match']
@@ -1174,16 +1298,12 @@ def run_server(case, mon, viol, info, texts):
                     if name in ref.opts:
                         args = ref.opts[name]
                         if name == 'AuthorizedKeysFile':
-                            args = [x.replace('%%', '\0').replace(
-                                '%u', t['user']).replace('\0', '%')
-                                for x in args]
+                            args = [subst_user(x, t['user']) for x in args]
                         want = norm_args(name, args, True)
                     mon['server_options_compared'] += 1
                     if a != want:
-                        mech = 'server_resolution_differs'
-                        if any(it[0] == 'include' and len(it[2]) > 1
-                               for its in gen.files.values() for it in its):
-                            mech = 'server_resolution_differs_with_glob_include'
+                        mech = classify(gen, 'server', name, a, main, t, feats,
+                                        fallback='server_resolution_differs')
                         viol.append({
                             'mechanism': mech,
                             'detail': f'{name}: SSHServerConfig resolves '
@@ -1202,7 +1322,7 @@ ATOMS = ['..', '.', '...', '../x', '../../etc/passwd', 'a/b', '/abs',
          'a\x00b', '\x00', 'a\nb', 'x\r\ny', '\uff0e\uff0e', 'a\uff0fb',
          'a\u2215b', '\u2025', '\u2024\u2024', '\uff5ex', '\uff04{HOME}',
          '\u2024\u2024\uff0fx', 'a\u2044b', '..\u2215x', '\ufe52\ufe52',
-         'a' * 5000, '../' * 400 + 'x', '']
+         'a' * 5000, '../' * 400 + 'x']
 BENIGN = ['alice', 'bob.smith', 'user-1', 'a..b', '..a', 'a~', 'x:y', 'root',
           'u_1', 'a.b.c', 'a$b', 'x{y}']
 TEMPLATES = ['/keys/%u', '/keys/%u/authorized_keys', '/keys/user-%u.pub',
@@ -1219,6 +1339,11 @@ def gen_username(rng):
     parts = [rng.choice(ATOMS[:-3] + BENIGN + ['x', 'y1'])
              for _ in range(rng.randint(2, 3))]
     return rng.choice(['', '', '/', '-', '.']).join(parts)
+
+
+def subst_user(template, user):
+    return re.sub('%(.)', lambda m: {'%': '%', 'u': user}[m.group(1)],
+                  template)
 
 
 def template_dir(template):
@@ -1309,8 +1434,7 @@ def run_unsafe(case, mon, viol, info, texts):
                                   f'{text!r}'})
                     continue
                 for tmpl, val in zip(templates, values):
-                    literal = tmpl.replace('%%', '\0').replace(
-                        '%u', user).replace('\0', '%')
+                    literal = subst_user(tmpl, user)
                     base = template_dir(tmpl).replace('%%', '%')
                     why = None
                     if val != literal:
@@ -1337,7 +1461,7 @@ def run_unsafe(case, mon, viol, info, texts):
 
 def gen_cases(tier, seed):
     rng = random.Random(f'c18-{seed}')
-    mult = 1 if tier == 'quick' else 12
+    mult = 3 if tier == 'quick' else 40
     cases = []
     for kind, count in (('core', 90), ('tokens', 45), ('final', 25)):
         for _ in range(count * mult):
